@@ -62,6 +62,8 @@ def fam_server(w: World) -> None:
         return
     n = len(info['doc']) if isinstance(info['doc'], list) else 1
     cfg = S.draw_config(ch, n, middlewares=True, handlers=True, force_async=False)
+    if ch.flag(1, 4, 'srv.own_encoder'):
+        cfg['hooks'] = 'own_encoder'     # the same (non-default) configuration for all three dispatchers
     w.scenario = {'cfg': cfg, 'text': text if len(text) < 400 else text[:200] + '...'}
     w.nontrivial = True
     views = {}
@@ -153,6 +155,8 @@ def fam_server_history(w: World) -> None:
         info['text'] = info['text'].replace('"t', f'"h{r}_t')
         infos.append(info)
     cfg = S.draw_config(ch, 3, middlewares=True, handlers=True, force_async=False)
+    if ch.flag(1, 4, 'srv.own_encoder'):
+        cfg['hooks'] = 'own_encoder'
     w.scenario = {'cfg': cfg, 'texts': [i['text'] for i in infos]}
     w.nontrivial = True
     context = SimpleNamespace(mark='ctx-mark')
